@@ -4,6 +4,8 @@ import importlib
 import json
 import os
 
+from vf import core
+
 VERIF = os.path.dirname(os.path.dirname(os.path.abspath(__file__)))
 
 TECH = {
@@ -68,7 +70,7 @@ def main():
                 "engine": eng,
                 "level_claimed": {
                     "category": m.LEVEL,
-                    "text": "Bounded exhaustive: " + m.RULE,
+                    "text": "Bounded exhaustive: " + m.RULE + core._rule_extra(pid),
                     "design_ref": "DESIGN.md §3 %s" % pid,
                 },
                 "level_note": NOTES[m.LEVEL] + ". Assumptions: " + "; ".join(getattr(m, "ASSUMPTIONS", [])),
